@@ -91,7 +91,20 @@ def rule_sinks(ck):
     for k, c in enumerate(inj):
         # in the same arm: a dequeue dominates the injection and lies after the apply_new_status that queued it
         ans = [a for a in ss.calls() if a.name == TR + "::apply_new_status" and ss.dominates(a.bb, c.bb)]
-        ok = any(ss.dominates(d.bb, c.bb) and all(ss.dominates(a.bb, d.bb) for a in ans) for d in deq) and bool(ans)
+        # the entry to drop is the one apply_new_status has just appended: it must be taken from the end the
+        # push used (push_back <-> pop_back), or removed by value (retain/remove); popping the other end drops
+        # an older pending signal and leaves this one queued
+        anf = prog.fns.get(TR + "::apply_new_status")
+        push_ends = {x.name.rsplit("::", 1)[-1] for x in (anf.calls() if anf else []) if re.search(r"VecDeque::<T, A>::push_(back|front)$", x.name) and _mentions_field(expr_of(anf, x.args[0]), "inject_signal_queue")}
+        same_end = {"push_back": "pop_back", "push_front": "pop_front"}
+
+        def drops_just_queued(d):
+            n = d.name.rsplit("::", 1)[-1]
+            if n in ("retain", "retain_mut", "remove"):
+                return True
+            return any(same_end.get(pe) == n for pe in push_ends)
+
+        ok = any(drops_just_queued(d) and ss.dominates(d.bb, c.bb) and all(ss.dominates(a.bb, d.bb) for a in ans) for d in deq) and bool(ans)
         ck.ob("wmc.inject", f"single_step/inject#{k}/dequeued-first", ok, "the signal was queued by apply_new_status and is also injected with the step: it will be delivered again at the next resume", ss.loc(c.bb), what="quiet signal during a step is delivered twice")
         sig = expr_str(expr_of(ss, c.args[1]), 8)
         ck.ob("wmc.inject", f"single_step/inject#{k}/injects-the-received-signal", "SignalStop" in sig and "apply_new_status" in sig, f"signal = {sig}", ss.loc(c.bb))
